@@ -59,6 +59,7 @@ type Run struct {
 	Deep   bool // evaluate heavy oracles at this step
 	Ctx    map[string]any
 	Wrap   func(klevdb.Log) klevdb.Log
+	Dead   []klevdb.Log // handles of killed "processes": never used again, closed after the run
 }
 
 func (r *Run) logf(format string, a ...any) {
@@ -583,7 +584,7 @@ func (r *Run) execOp(op *Op) {
 			r.H.OnPublish(r, r.M.Next, nil, ret, nil)
 		}
 		r.Ctx["last_sync"] = ret
-	case "reopen":
+	case "reopen", "kill":
 		r.reopen(op)
 	default:
 		if r.H.OnOp != nil && r.H.OnOp(r, op) {
@@ -593,7 +594,50 @@ func (r *Run) execOp(op *Op) {
 	}
 }
 
+// kill: the process dies between two calls, without Close. Its file descriptors and its
+// directory lock go with it; what it has written stays (in the page cache at least, on
+// stable storage as far as it was fsynced: the disk model goes by path and carries on).
+// The handle is never touched again; the directory is replaced by a byte-identical copy
+// (fresh inodes, no lock), outside the file-system tap.
+func (r *Run) kill() {
+	r.Dead = append(r.Dead, r.L)
+	r.L = nil
+	grave := filepath.Join(r.Base, fmt.Sprintf("dead%d", len(r.Dead)))
+	if err := os.Rename(r.Dir, grave); err != nil {
+		panic(infraErr{err})
+	}
+	if err := os.Mkdir(r.Dir, 0o755); err != nil {
+		panic(infraErr{err})
+	}
+	ents, err := os.ReadDir(grave)
+	if err != nil {
+		panic(infraErr{err})
+	}
+	for _, e := range ents {
+		b, err := os.ReadFile(filepath.Join(grave, e.Name()))
+		if err != nil {
+			panic(infraErr{err})
+		}
+		if err := os.WriteFile(filepath.Join(r.Dir, e.Name()), b, 0o600); err != nil {
+			panic(infraErr{err})
+		}
+	}
+	r.logf("kill")
+	r.probe("process_kill")
+}
+
+// CloseDead closes the handles of killed processes (after the run, outside the simulation).
+func (r *Run) CloseDead() {
+	for _, l := range r.Dead {
+		_ = guard(func() error { return l.Close() })
+	}
+	r.Dead = nil
+}
+
 func (r *Run) reopen(op *Op) {
+	if op.K == "kill" && r.L != nil {
+		r.kill()
+	}
 	if r.L != nil {
 		if r.H.BeforeClose != nil {
 			r.H.BeforeClose(r)
